@@ -45,6 +45,9 @@ func C18Config(prop string, r *Rand, tier string) map[string]int64 {
 	c["w_err"] = int64(r.Range(0, 8))
 	c["w_time"] = int64(r.Range(10, 30))
 	c["big_gaps"] = int64(r.Intn(2))
+	// a second subscriber that stays busy with each notification until the scheduler lets it read again
+	c["slow_sub"] = int64(r.Intn(2))
+	c["w_sub"] = int64(r.Range(1, 12))
 	return c
 }
 
@@ -156,6 +159,31 @@ func runC18(tr *Trace, sc *Script, rec *Recorder) *Violation {
 			}
 		}
 	}()
+	var gotSlow []c18Notif
+	if cfg["slow_sub"] == 1 {
+		slowCh := en.Subscribe("slow")
+		ep := w.Epoch
+		go func() {
+			for {
+				select {
+				case <-ctx.Done():
+					return
+				case e := <-slowCh:
+					blk := uint64(0)
+					if x, ok := e.ExtraInfo.(*aggsender.ExtraInfoEventEpoch); ok {
+						blk = S + e.Epoch*N - uint64(x.PendingBlocks)
+					}
+					mu.Lock()
+					gotSlow = append(gotSlow, c18Notif{Epoch: e.Epoch, Block: blk})
+					mu.Unlock()
+					// busy with this notification: it does not read the next one before the scheduler says so
+					if w.park(ctx, "sub", "Busy", fmt.Sprintf("epoch %d", e.Epoch), ep) == replyDead {
+						return
+					}
+				}
+			}
+		}()
+	}
 	w.EndSetup()
 	go en.Start(ctx)
 	w.Quiesce()
@@ -182,6 +210,15 @@ func runC18(tr *Trace, sc *Script, rec *Recorder) *Violation {
 				return &Violation{Oracle: "order", Sig: "c18/epoch-order", Detail: fmt.Sprintf("%s: epoch numbers do not strictly increase: %v", ctx, got)}
 			}
 		}
+		// the busy subscriber: what it has read so far is the beginning of what is due, in order; at the end, all of it
+		for i, g := range gotSlow {
+			if i >= len(want) || g != want[i] {
+				return &Violation{Oracle: "slow-subscriber", Sig: "c18/slow-subscriber-wrong", Detail: fmt.Sprintf("%s: the busy subscriber's notification #%d is epoch %d at block %d; due are %v (start=%d len=%d pct=%d)", ctx, i, g.Epoch, g.Block, want, S, N, P)}
+			}
+		}
+		if final && cfg["slow_sub"] == 1 && len(gotSlow) < len(want) {
+			return &Violation{Oracle: "slow-subscriber", Sig: "c18/slow-subscriber-missed", Detail: fmt.Sprintf("%s: the busy subscriber got %d notifications %v, %d are due %v: a subscriber that reads late still gets each epoch once (start=%d len=%d pct=%d)", ctx, len(gotSlow), gotSlow, len(want), want, S, N, P)}
+		}
 		if len(got) < len(want) {
 			m := want[len(got)]
 			sig := "c18/missing-notification"
@@ -195,11 +232,15 @@ func runC18(tr *Trace, sc *Script, rec *Recorder) *Violation {
 
 	gen := func(r *Rand) (Op, bool) {
 		labels := w.ParkedLabels()
-		wts := []int{int(cfg["w_mine"]), int(cfg["w_shrink"]), int(cfg["w_rel"]), int(cfg["w_err"]), int(cfg["w_time"]), int(cfg["w_thr"])}
-		if len(labels) == 0 {
+		wts := []int{int(cfg["w_mine"]), int(cfg["w_shrink"]), int(cfg["w_rel"]), int(cfg["w_err"]), int(cfg["w_time"]), int(cfg["w_thr"]), 0}
+		if w.FirstParked("bn") == nil {
 			wts[2], wts[3] = 0, 0
 			wts[4] += 30
 		}
+		if w.FirstParked("sub") != nil {
+			wts[6] = int(cfg["w_sub"])
+		}
+		_ = labels
 		if chain.HeadNum() < 2 {
 			wts[1] = 0
 		}
@@ -219,6 +260,8 @@ func runC18(tr *Trace, sc *Script, rec *Recorder) *Violation {
 			return Op{K: "rel", S: "bn", A: []int64{0}}, true
 		case 3:
 			return Op{K: "rel", S: "bn", A: []int64{1}}, true
+		case 6:
+			return Op{K: "rel", S: "sub", A: []int64{0}}, true
 		case 5:
 			// boundary bias: put the head on, just before or just after the first block at or beyond the percentage
 			return Op{K: "minethr", A: []int64{int64(r.Intn(3)) - 1, int64(r.Intn(2))}}, true
@@ -276,10 +319,19 @@ func runC18(tr *Trace, sc *Script, rec *Recorder) *Violation {
 			if p == nil {
 				continue
 			}
-			if op.Arg(0) != 0 {
+			if op.Arg(0) != 0 && op.S != "sub" {
 				rec.Stats.Inc("rpc_fault_1_HeaderByNumber")
 			}
 			rec.Step(fmt.Sprintf("r%d", op.Arg(0)))
+			if op.S == "sub" {
+				mu.Lock()
+				if len(got)-len(gotSlow) >= 2 {
+					rec.Stats.Inc("busy_subscriber_two_or_more_behind")
+				}
+				mu.Unlock()
+				w.Release(p, replyOK)
+				break
+			}
 			w.Release(p, int(op.Arg(0)))
 		case "time":
 			w.Advance(time.Duration(op.Arg(0)) * time.Millisecond)
@@ -295,12 +347,19 @@ func runC18(tr *Trace, sc *Script, rec *Recorder) *Violation {
 	}
 	// drain: let the poller observe the final head
 	for i := 0; i < 40; i++ {
-		ps := w.Parked()
-		if len(ps) > 0 {
-			w.Release(ps[0], replyOK)
+		if p := w.FirstParked("bn"); p != nil {
+			w.Release(p, replyOK)
 		} else {
 			w.Advance(time.Second)
 		}
+	}
+	// ... and the busy subscriber read everything that is waiting for it
+	for i := 0; i < 100000; i++ {
+		p := w.FirstParked("sub")
+		if p == nil {
+			break
+		}
+		w.Release(p, replyOK)
 	}
 	if v := compare("end of run", true); v != nil {
 		return v
